@@ -4,7 +4,7 @@ from __future__ import annotations
 
 import ast
 
-from ..cfg import CFG, calls_at
+from ..cfg import CFG, calls_at, typestate
 from ..loader import AnalysisError, Repo, body_nodoc, dotted, norm, parent, walk_no_nested, enclosing, qualname, strip_cast
 from ..report import Report
 from .c26 import event_kinds
@@ -201,13 +201,8 @@ def run(repo: Repo, rep: Report, tier: str) -> None:
                 fn = enclosing(n, (ast.FunctionDef,))
                 q = f"{short}.{qualname(n)}"
                 a_msg, a_id = norm(strip_cast(n.args[0])), norm(strip_cast(n.args[1]))
-                # both must be bound by one tuple assignment from get_msg()
-                ok = False
-                for s in walk_no_nested(fn):
-                    if isinstance(s, ast.Assign) and isinstance(s.targets[0], ast.Tuple) and isinstance(s.value, ast.Call) and (dotted(s.value.func) or "").endswith("dimse.get_msg"):
-                        names = [norm(e) for e in s.targets[0].elts]
-                        if names == [a_id, a_msg]:
-                            ok = True
+                # on every path to the call both are bound by one and the same `id, msg = ..get_msg()` (reaching definitions)
+                ok = _paired_from_get_msg(fn, n, a_msg, a_id)
                 rep.check(ok, "id-flow", q, enclosing(n, (ast.stmt,)), "the message and the context id handed to _serve_request must come from the same get_msg() result, in (context id, message) order", mod=m, node=n)
             # thread target form: Thread(target=make_target(self.assoc._serve_request), args=(prim, cid))
             if isinstance(n, ast.Call) and (dotted(n.func) or "").endswith("Thread"):
@@ -282,9 +277,59 @@ def run(repo: Repo, rep: Report, tier: str) -> None:
     loops = [f for f in walk_no_nested(dmf) if isinstance(f, ast.For) and norm(f.iter).endswith(".presentation_data_value_list")]
     okc = len(w_ctx) == 1 and len(loops) == 1 and isinstance(loops[0].target, ast.Tuple) and norm(loops[0].target.elts[0]) == norm(w_ctx[0].value) and any(x is w_ctx[0] for x in ast.walk(loops[0]))
     rep.check(okc, "id-origin", "dimse_messages.DIMSEMessage.decode_msg", f"context_id writers: {[norm(s_) for s_ in w_ctx]}", "the message's context id must be the one of the received PDV (first element of the PDV tuple), set in one place", mod=msgs, node=w_ctx[0] if w_ctx else dmf)
+    if w_ctx:
+        # ... and it is the id of the PDV that carries the *command set*: the command names the request, and it
+        # is that PDV's context the accepted-context guards are about. A writer outside the command-fragment
+        # branch lets a later data-set fragment sent under another (accepted) id overwrite it.
+        conds = []
+        p_ = parent(w_ctx[0])
+        node_ = w_ctx[0]
+        while p_ is not None and not isinstance(p_, (ast.FunctionDef, ast.For, ast.While)):
+            if isinstance(p_, ast.If) and node_ in p_.body:
+                conds.append(norm(p_.test).replace(" ", ""))
+            node_, p_ = p_, parent(p_)
+        under_cmd = any(c in ("control_header_byte&1", "control_header_byte&3==3", "control_header_byte&1==1", "control_header_byte&1!=0") or "control_header_byte&1" in c for c in conds)
+        rep.check(under_cmd, "id-origin", "dimse_messages.DIMSEMessage.decode_msg", w_ctx[0], "the message's context id is not taken from the PDV that carries the command set (the write is outside the `control_header_byte & 1` branch): a request whose command set arrives under a rejected / unknown id and whose data-set fragments arrive under an accepted one ends up with the accepted id, passes the accepted-context guards and reaches the handler", mod=msgs, node=w_ctx[0])
     rep.extra["trigger_sites"] = [f"{s}.{qualname(c)}:{en}" for s, m, c, en in sites]
     # ---- state is per instance -------------------------------------------------------------------
     from ..lints import per_instance_state
     rep.rule("per-instance-state", "mutable state of the protocol objects is created per instance, never as a class attribute")
     per_instance_state(repo, rep, "per-instance-state", {"association": ("Association",), "dimse": ("DIMSEServiceProvider",), "dimse_messages": ("DIMSEMessage",)})
 
+
+
+def _paired_from_get_msg(fn: ast.AST, call: ast.Call, a_msg: str, a_id: str) -> bool:
+    """reaching definitions at `call`: the last binding of the message name and of the id name are the same
+    statement, a tuple assignment `<id>, <msg> = <..>.get_msg(..)`, on every path"""
+    cfg = CFG(fn, body=body_nodoc(fn), local_exc_only=True)
+
+    def binds(a):
+        out = set()
+        tg = a.targets if isinstance(a, ast.Assign) else [a.target] if isinstance(a, (ast.AnnAssign, ast.AugAssign)) else []
+        for t in tg:
+            for x in ast.walk(t):
+                if isinstance(x, (ast.Name, ast.Attribute)) and isinstance(x.ctx, ast.Store):
+                    out.add(norm(x))
+        return out
+
+    def transfer(n, st):
+        dm, di = st
+        if n.kind == "stmt" and isinstance(n.ast, (ast.Assign, ast.AnnAssign, ast.AugAssign)):
+            b = binds(n.ast)
+            good = isinstance(n.ast, ast.Assign) and isinstance(n.ast.targets[0], ast.Tuple) and isinstance(n.ast.value, ast.Call) and (dotted(n.ast.value.func) or "").endswith("get_msg") and [norm(e) for e in n.ast.targets[0].elts] == [a_id, a_msg]
+            tag = n.id if good else -1 - n.id
+            nd = (tag if a_msg in b else dm, tag if a_id in b else di)
+            if nd != st:
+                return [(nd, {l for _, l in n.succ if l != "exc"}), (st, {"exc"})]
+        if n.kind == "iter":
+            b = {norm(x) for x in ast.walk(n.ast.target) if isinstance(x, ast.Name)}
+            if a_msg in b or a_id in b:
+                return [((-1 - n.id if a_msg in b else dm, -1 - n.id if a_id in b else di), None)]
+        return [(st, None)]
+
+    ins, _ = typestate(cfg, (None, None), transfer)
+    site = [n for n in cfg.nodes if n.kind == "stmt" and call in calls_at(n)]
+    if len(site) != 1:
+        return False
+    sts = ins.get(site[0].id, set())
+    return bool(sts) and all(dm is not None and dm == di and dm >= 0 for dm, di in sts)
